@@ -202,7 +202,7 @@ Theorem dynamic_lookup_refuted : exists p,
   (forall L S, ~ program_ok L S p) /\
   run 60 p = ([OInt 5; ONl; OInt 99; ONl], Finished) /\
   mech_run false 60 p = ([OInt 99; ONl; OInt 99; ONl], Finished).
-Proof. exists w_free_name. split; [exact w_free_name_not_ok|]. split; apply w_free_name_runs. Qed.
+Proof. exists w_free_name. split; [exact w_free_name_not_ok|]. exact (conj (proj1 w_free_name_runs) (proj1 (proj2 w_free_name_runs))). Qed.
 Print Assumptions dynamic_lookup_refuted.
 
 (* DESIGN #15: a static named like a global updates the global (statics are looked up last) *)
@@ -210,35 +210,35 @@ Theorem static_per_function_refuted : exists p,
   (forall L S, ~ program_ok L S p) /\
   run 60 p = ([OInt 1; ONl; OInt 2; ONl; OInt 7; ONl], Finished) /\
   mech_run false 60 p = ([OInt 8; ONl; OInt 9; ONl; OInt 9; ONl], Finished).
-Proof. exists w_static_global. split; [exact w_static_global_not_ok|]. split; apply w_static_global_runs. Qed.
+Proof. exists w_static_global. split; [exact w_static_global_not_ok|]. exact (conj (proj1 w_static_global_runs) (proj1 (proj2 w_static_global_runs))). Qed.
 Print Assumptions static_per_function_refuted.
 
 (* arguments are evaluated inside the callee's scope: f(n-1, acc+n) sees the new n; f(3,0) = 3, not 6 *)
 Theorem recursion_levels_independent_refuted : exists p,
   (forall L S, ~ program_ok L S p) /\
   run 60 p = ([OInt 6; ONl], Finished) /\ mech_run false 60 p = ([OInt 3; ONl], Finished).
-Proof. exists w_args_scope. split; [exact w_args_scope_not_ok|]. split; apply w_args_scope_runs. Qed.
+Proof. exists w_args_scope. split; [exact w_args_scope_not_ok|]. exact (conj (proj1 w_args_scope_runs) (proj1 (proj2 w_args_scope_runs))). Qed.
 Print Assumptions recursion_levels_independent_refuted.
 
 (* ... so binding is not positional: f(b, a, a) with a = 7, b = 8 receives (8, 8, 8) *)
 Theorem args_positional_refuted : exists p,
   (forall L S, ~ program_ok L S p) /\
   run 60 p = ([OInt 877; ONl], Finished) /\ mech_run false 60 p = ([OInt 888; ONl], Finished).
-Proof. exists w_positional. split; [exact w_positional_not_ok|]. split; apply w_positional_runs. Qed.
+Proof. exists w_positional. split; [exact w_positional_not_ok|]. exact (conj (proj1 w_positional_runs) (proj1 (proj2 w_positional_runs))). Qed.
 Print Assumptions args_positional_refuted.
 
 (* a callee assigning to a global's name changes the caller's local of that name: 10 becomes 15 *)
 Theorem callee_cannot_touch_caller_frame_refuted : exists p,
   (forall L S, ~ program_ok L S p) /\
   run 60 p = ([OInt 6; ONl; OInt 10; ONl], Finished) /\ mech_run false 60 p = ([OInt 15; ONl; OInt 15; ONl], Finished).
-Proof. exists w_caller_write. split; [exact w_caller_write_not_ok|]. split; apply w_caller_write_runs. Qed.
+Proof. exists w_caller_write. split; [exact w_caller_write_not_ok|]. exact (conj (proj1 w_caller_write_runs) (proj1 (proj2 w_caller_write_runs))). Qed.
 Print Assumptions callee_cannot_touch_caller_frame_refuted.
 
 (* a default mentioning a global is evaluated against the caller's local of that name *)
 Theorem defaults_fill_trailing_refuted : exists p,
   (forall L S, ~ program_ok L S p) /\
   run 60 p = ([OInt 23; ONl], Finished) /\ mech_run false 60 p = ([OInt 28; ONl], Finished).
-Proof. exists w_default_free. split; [exact w_default_free_not_ok|]. split; apply w_default_free_runs. Qed.
+Proof. exists w_default_free. split; [exact w_default_free_not_ok|]. exact (conj (proj1 w_default_free_runs) (proj1 (proj2 w_default_free_runs))). Qed.
 Print Assumptions defaults_fill_trailing_refuted.
 
 (* a static's initialiser is evaluated on every execution of the declaration, twice on the first *)
@@ -246,7 +246,7 @@ Theorem static_init_once_refuted : exists p,
   (forall L S, ~ program_ok L S p) /\
   run 60 p = ([OInt 107; ONl; OInt 8; ONl; OInt 9; ONl], Finished) /\
   mech_run false 60 p = ([OInt 107; ONl; OInt 107; ONl; OInt 8; ONl; OInt 107; ONl; OInt 9; ONl], Finished).
-Proof. exists w_static_init. split; [exact w_static_init_not_ok|]. split; apply w_static_init_runs. Qed.
+Proof. exists w_static_init. split; [exact w_static_init_not_ok|]. exact (conj (proj1 w_static_init_runs) (proj1 (proj2 w_static_init_runs))). Qed.
 Print Assumptions static_init_once_refuted.
 
 (* a static handed to another function is "undefined": arguments are evaluated with the callee as
@@ -254,7 +254,7 @@ Print Assumptions static_init_once_refuted.
 Theorem static_persists_refuted : exists p,
   (forall L S, ~ program_ok L S p) /\
   run 60 p = ([OInt 7; ONl; OInt 8; ONl], Finished) /\ mech_run false 60 p = ([], Failed EUnbound).
-Proof. exists w_static_arg. split; [exact w_static_arg_not_ok|]. split; apply w_static_arg_runs. Qed.
+Proof. exists w_static_arg. split; [exact w_static_arg_not_ok|]. exact (conj (proj1 w_static_arg_runs) (proj1 (proj2 w_static_arg_runs))). Qed.
 Print Assumptions static_persists_refuted.
 
 (* ================================================================== CbCall: results of every kind, every exit *)
@@ -309,8 +309,10 @@ Print Assumptions kinds_restore_policy_exact.
 (* The filed change C08-1 as a policy: the caller of a string function goes on under the callee's
    name and counts in the callee's static (102, 104 instead of 2, 4). *)
 Theorem kinds_seeded_change_refuted : exists p,
-  policy_ok seeded_policy = false /  kref_run 40 p = ([KOVal KStr 0; KOSp; KOVal KLong 2; KONl; KOVal KInt 2; KONl;
-                    KOVal KStr 0; KOSp; KOVal KLong 4; KONl; KOVal KInt 4; KONl], Finished) /  k_run true seeded_policy 40 p =
+  policy_ok seeded_policy = false /\
+  kref_run 40 p = ([KOVal KStr 0; KOSp; KOVal KLong 2; KONl; KOVal KInt 2; KONl;
+                    KOVal KStr 0; KOSp; KOVal KLong 4; KONl; KOVal KInt 4; KONl], Finished) /\
+  k_run true seeded_policy 40 p =
                    ([KOVal KStr 0; KOSp; KOVal KLong 102; KONl; KOVal KInt 102; KONl;
                      KOVal KStr 0; KOSp; KOVal KLong 104; KONl; KOVal KInt 104; KONl], Finished).
 Proof. exists w_seeded. split; [reflexivity|]. split; [exact w_seeded_ref | exact w_seeded_bad]. Qed.
@@ -319,7 +321,8 @@ Print Assumptions kinds_seeded_change_refuted.
 (* A store and a static declaration change the statics of the running function and of no other. *)
 Theorem kinds_statics_private : forall mech x v k s g,
   g <> key mech s ->
-  kstatics g (snd (k_write mech x v s)) = kstatics g s /  kstatics g (snd (k_static_declare mech k x v s)) = kstatics g s.
+  kstatics g (snd (k_write mech x v s)) = kstatics g s /\
+  kstatics g (snd (k_static_declare mech k x v s)) = kstatics g s.
 Proof.
   intros. split; [apply k_write_statics_private | apply k_static_declare_private]; assumption.
 Qed.
@@ -327,7 +330,8 @@ Print Assumptions kinds_statics_private.
 
 (* Once known, a static stays known over every expression and statement (calls of every kind). *)
 Theorem kinds_statics_persist : forall mech pol funcs n,
-  (forall e s f x, assoc x (kstatics f s) <> None -> assoc x (kstatics f (snd (keval mech pol funcs n e s))) <> None) /  (forall st s f x, assoc x (kstatics f s) <> None -> assoc x (kstatics f (snd (kexec mech pol funcs n st s))) <> None).
+  (forall e s f x, assoc x (kstatics f s) <> None -> assoc x (kstatics f (snd (keval mech pol funcs n e s))) <> None) /\
+  (forall st s f x, assoc x (kstatics f s) <> None -> assoc x (kstatics f (snd (kexec mech pol funcs n st s))) <> None).
 Proof.
   intros mech pol funcs n. destruct (statics_persist mech pol funcs n) as [He Hs].
   split; intros; [apply (He e s) | apply (Hs st s)]; assumption.
